@@ -16,7 +16,7 @@
   (! (=> (and (<= 0 k) (agree8 a b s 0 k)) (= (alldigits$ b s k) (alldigits$ a s k))) :pattern ((alldigits$ a s k) (alldigits$ b s k)))))
 (define-fun isminus1$ ((m ByteArr) (s Slice)) Bool (and (= (sl.len s) 2) (= (el8 m s 0) #x2d) (= (el8 m s 1) #x31)))
 (define-fun canon$ ((m ByteArr) (s Slice)) Bool
-  (and (>= (sl.len s) 1) (<= (sl.len s) 18) (alldigits$ m s (sl.len s)) (=> (> (sl.len s) 1) (not (= (el8 m s 0) #x30)))))
+  (and (>= (sl.len s) 1) (<= (sl.len s) 18) (alldigits$ m s (sl.len s)) (isdigit (el8 m s 0)) (=> (> (sl.len s) 1) (not (= (el8 m s 0) #x30)))))
 
 ; ---- request framing: bulk strings and argument lists inside a byte window ----
 ; sig subsl : Slice Int Int -> Slice
